@@ -824,3 +824,218 @@ Proof.
   destruct (in_displayb (P x y)) eqn:Ep; [reflexivity|].
   symmetry. apply gp_outside. apply in_displayb_false in Ep. unfold in_display in *. cbn [px py] in *. lia.
 Qed.
+
+(* ===== Part 5: ColorMapping tables, from_pattern, Debug ============================================== *)
+
+(* the colours that have their own pattern character, and those characters (tables generated from color_mapping.rs) *)
+Definition colset (m : mapping) : list Z := map fst (m_col2c m).
+Definition charset (m : mapping) : list Z := map snd (m_col2c m).
+
+(* table check: every (colour, char) row prints as that char, parses back to that colour, and is not ' ' *)
+Definition row_ok (m : mapping) (vc : Z * Z) : bool :=
+  (match color_to_char m (fst vc) with Ok c => c =? snd vc | Panic _ => false end)
+  && (match char_to_color m (snd vc) with Ok v => v =? fst vc | Panic _ => false end)
+  && negb (snd vc =? SPACE).
+Definition mapping_ok (m : mapping) : bool := forallb (row_ok m) (m_col2c m).
+
+Lemma all_mappings_ok : forallb mapping_ok all_mappings = true.
+Proof. vm_compute. reflexivity. Qed.
+
+Lemma colset_roundtrip m v :
+  In m all_mappings -> In v (colset m) ->
+  exists ch, color_to_char m v = Ok ch /\ char_to_color m ch = Ok v /\ ch <> SPACE /\ In ch (charset m).
+Proof.
+  intros Hm Hv. pose proof all_mappings_ok as H. rewrite forallb_forall in H. specialize (H m Hm).
+  unfold mapping_ok in H. rewrite forallb_forall in H.
+  unfold colset in Hv. apply in_map_iff in Hv. destruct Hv as [[v' ch] [E Hin]]. cbn [fst] in E. subst v'.
+  specialize (H _ Hin). unfold row_ok in H. cbn [fst snd] in H.
+  apply andb_true_iff in H. destruct H as [H H3]. apply andb_true_iff in H. destruct H as [H1 H2].
+  destruct (color_to_char m v) as [c|] eqn:E1; [|discriminate].
+  destruct (char_to_color m ch) as [v2|] eqn:E2; [|discriminate].
+  exists ch. assert (c = ch) by lia. assert (v2 = v) by lia. subst.
+  split; [congruence|]. split; [congruence|]. split; [lia|].
+  unfold charset. apply in_map_iff. exists (v, ch). auto.
+Qed.
+
+Lemma charset_roundtrip m ch :
+  In m all_mappings -> In ch (charset m) ->
+  exists v, char_to_color m ch = Ok v /\ color_to_char m v = Ok ch /\ ch <> SPACE /\ In v (colset m).
+Proof.
+  intros Hm Hc. pose proof all_mappings_ok as H. rewrite forallb_forall in H. specialize (H m Hm).
+  unfold mapping_ok in H. rewrite forallb_forall in H.
+  unfold charset in Hc. apply in_map_iff in Hc. destruct Hc as [[v ch'] [E Hin]]. cbn [snd] in E. subst ch'.
+  specialize (H _ Hin). unfold row_ok in H. cbn [fst snd] in H.
+  apply andb_true_iff in H. destruct H as [H H3]. apply andb_true_iff in H. destruct H as [H1 H2].
+  destruct (color_to_char m v) as [c|] eqn:E1; [|discriminate].
+  destruct (char_to_color m ch) as [v2|] eqn:E2; [|discriminate].
+  exists v. assert (c = ch) by lia. assert (v2 = v) by lia. subst.
+  split; [congruence|]. split; [congruence|]. split; [lia|].
+  unfold colset. apply in_map_iff. exists (v, ch). auto.
+Qed.
+
+(* one cell <-> one pattern character *)
+Definition enc (m : mapping) (c : option Z) : result Z :=
+  match c with None => Ok SPACE | Some v => color_to_char m v end.
+Definition cell_valid (m : mapping) (c : option Z) : Prop := match c with None => True | Some v => In v (colset m) end.
+Definition char_valid (m : mapping) (ch : Z) : Prop := ch = SPACE \/ In ch (charset m).
+
+Lemma enc_roundtrip m c :
+  In m all_mappings -> cell_valid m c -> exists ch, enc m c = Ok ch /\ pattern_char m ch = Ok c /\ char_valid m ch.
+Proof.
+  intros Hm Hc. destruct c as [v|]; cbn [enc cell_valid] in *.
+  - destruct (colset_roundtrip m v Hm Hc) as [ch [E1 [E2 [E3 E4]]]]. exists ch. split; [assumption|].
+    unfold pattern_char, char_valid. replace (ch =? SPACE) with false by lia. rewrite E2. cbn [bind]. auto.
+  - exists SPACE. unfold pattern_char, char_valid. rewrite Z.eqb_refl. auto.
+Qed.
+
+Lemma pattern_char_roundtrip m ch :
+  In m all_mappings -> char_valid m ch -> exists c, pattern_char m ch = Ok c /\ enc m c = Ok ch /\ cell_valid m c.
+Proof.
+  intros Hm [->|Hc].
+  - exists None. unfold pattern_char. rewrite Z.eqb_refl. cbn [enc cell_valid]. auto.
+  - destruct (charset_roundtrip m ch Hm Hc) as [v [E1 [E2 [E3 E4]]]]. exists (Some v).
+    unfold pattern_char. replace (ch =? SPACE) with false by lia. rewrite E1. cbn [bind enc cell_valid]. auto.
+Qed.
+
+(* ---- generic list facts --------------------------------------------------------------------------- *)
+Lemma mapM_roundtrip {A B} (f : A -> result B) (g : B -> result A) (Q : B -> Prop) l :
+  (forall x, In x l -> exists y, f x = Ok y /\ g y = Ok x /\ Q y) ->
+  exists ys, mapM f l = Ok ys /\ mapM g ys = Ok l /\ length ys = length l /\ Forall Q ys.
+Proof.
+  induction l as [|x l IH]; intros H; cbn [mapM].
+  - exists []. cbn [mapM length]. auto.
+  - destruct (H x (or_introl eq_refl)) as [y [E1 [E2 HQ]]].
+    destruct IH as [ys [E3 [E4 [E5 E6]]]]; [intros z Hz; apply H; right; assumption|].
+    exists (y :: ys). rewrite E1, E3. cbn [bind mapM length]. rewrite E2, E4. cbn [bind]. auto.
+Qed.
+
+Lemma mapM_length {A B} (f : A -> result B) l ys : mapM f l = Ok ys -> length ys = length l.
+Proof.
+  revert ys; induction l as [|x l IH]; intros ys; cbn [mapM].
+  - intros H; inversion H. reflexivity.
+  - destruct (f x); cbn [bind]; [|discriminate]. destruct (mapM f l); cbn [bind]; [|discriminate].
+    intros H; inversion H. cbn [length]. f_equal. apply IH. reflexivity.
+Qed.
+
+Lemma pad_exact {A} n (d : A) l : length l = n -> pad n d l = l.
+Proof. intros H. unfold pad. rewrite firstn_app, H, Nat.sub_diag, firstn_O, app_nil_r. subst n. apply firstn_all. Qed.
+
+Lemma pad_length {A} n (d : A) l : length (pad n d l) = n.
+Proof. unfold pad. rewrite firstn_length, app_length, repeat_length. lia. Qed.
+
+Lemma all_none_repeat (l : list (option Z)) : Forall (fun c => c = None) l -> l = repeat None (length l).
+Proof. induction 1 as [|x l Hx Hl IH]; cbn [length repeat]; [reflexivity|]. subst x. f_equal. exact IH. Qed.
+
+Lemma pad_none_tail (A B : list (option Z)) n :
+  Forall (fun c => c = None) B -> length (A ++ B) = n -> pad n None A = A ++ B.
+Proof.
+  intros HB Hn. rewrite app_length in Hn. rewrite (all_none_repeat B HB). set (k := length B) in *.
+  assert (length (A ++ repeat (@None Z) k) = n) as HX by (rewrite app_length, repeat_length; lia).
+  unfold pad.
+  replace (repeat (@None Z) n) with (repeat (@None Z) k ++ repeat None (n - k)) by (rewrite <- repeat_app; f_equal; lia).
+  rewrite app_assoc, firstn_app, HX, Nat.sub_diag, firstn_O, app_nil_r. rewrite <- HX at 1. apply firstn_all.
+Qed.
+
+Lemma take_while_split {A} (f : A -> bool) l :
+  exists rest, l = take_while f l ++ rest /\ Forall (fun x => f x = true) (take_while f l).
+Proof.
+  induction l as [|x l [rest [E H]]]; cbn [take_while].
+  - exists []. auto.
+  - destruct (f x) eqn:Ex.
+    + exists rest. cbn [app]. split; [f_equal; assumption|constructor; assumption].
+    + exists (x :: l). auto.
+Qed.
+
+(* the last `length (take_while f (rev l))` elements of l all satisfy f *)
+Lemma trailing_split {A} (f : A -> bool) l :
+  let e := length (take_while f (rev l)) in
+  (e <= length l)%nat /\ Forall (fun x => f x = true) (skipn (length l - e) l).
+Proof.
+  cbv zeta. destruct (take_while_split f (rev l)) as [rest [E H]].
+  set (tw := take_while f (rev l)) in *.
+  assert (l = rev rest ++ rev tw) as El by (rewrite <- rev_app_distr, <- E, rev_involutive; reflexivity).
+  assert (length l = length rest + length tw)%nat as Hl by (rewrite El at 1; rewrite app_length, !rev_length; reflexivity).
+  split; [lia|].
+  replace (length l - length tw)%nat with (length (rev rest)) by (rewrite rev_length; lia).
+  rewrite El at 1. rewrite skipn_app, Nat.sub_diag, skipn_all, skipn_O. cbn [app].
+  apply Forall_rev. assumption.
+Qed.
+
+Lemma chunks_fuel_spec {A} (n : nat) (k : nat) : forall (l : list A) fuel,
+  (0 < n)%nat -> length l = (k * n)%nat -> (k <= fuel)%nat ->
+  concat (chunks_fuel fuel n l) = l /\ length (chunks_fuel fuel n l) = k /\
+  Forall (fun r => length r = n) (chunks_fuel fuel n l).
+Proof.
+  induction k as [|k IH]; intros l fuel Hn Hl Hf.
+  - destruct l; [|discriminate]. destruct fuel; cbn [chunks_fuel concat length]; auto.
+  - destruct fuel as [|fuel]; [lia|]. cbn [Nat.mul] in Hl.
+    destruct l as [|a l']; [cbn [length] in Hl; lia|]. set (l := a :: l') in *. cbn [chunks_fuel].
+    assert (length (skipn n l) = (k * n)%nat) as Hs by (rewrite skipn_length; lia).
+    destruct (IH (skipn n l) fuel Hn Hs ltac:(lia)) as [E1 [E2 E3]].
+    change (match l with [] => [] | _ :: _ => firstn n l :: chunks_fuel fuel n (skipn n l) end)
+      with (firstn n l :: chunks_fuel fuel n (skipn n l)).
+    cbn [concat length]. rewrite E1, E2, firstn_skipn. split; [reflexivity|]. split; [reflexivity|].
+    constructor; [|assumption]. rewrite firstn_length. lia.
+Qed.
+
+Definition NS : nat := Z.to_nat SIZE.
+
+Lemma cells_list_length d : length (cells_list d) = (NS * NS)%nat.
+Proof. unfold cells_list. rewrite map_length. vm_compute. reflexivity. Qed.
+
+Lemma chunks_cells d :
+  let R := chunks NS (cells_list d) in
+  concat R = cells_list d /\ length R = NS /\ Forall (fun r => length r = NS) R.
+Proof.
+  cbv zeta. unfold chunks. apply chunks_fuel_spec.
+  - vm_compute. lia.
+  - apply cells_list_length.
+  - rewrite cells_list_length. assert (1 <= NS)%nat by (vm_compute; lia). nia.
+Qed.
+
+(* store_from writes the list into consecutive cells *)
+Lemma store_from_ok l : forall c i,
+  0 <= i -> i + Z.of_nat (length l) <= NCELLS ->
+  exists c', store_from c i l = Ok c' /\
+    forall j, 0 <= j -> cell c' j = if (i <=? j) && (j <? i + Z.of_nat (length l)) then nth (Z.to_nat (j - i)) l None else cell c j.
+Proof.
+  induction l as [|v l IH]; intros c i Hi Hl; cbn [store_from length].
+  - exists c. split; [reflexivity|]. intros j Hj. replace ((i <=? j) && (j <? i + Z.of_nat 0)) with false by lia. reflexivity.
+  - cbn [length] in Hl. unfold arr_set. replace (in_array i) with true by (unfold in_array; lia). cbn [bind].
+    destruct (IH (cell_put c i v) (i + 1)) as [c' [E Hc]]; [lia|lia|].
+    exists c'. split; [assumption|]. intros j Hj. rewrite (Hc j Hj).
+    destruct (Z.eq_dec j i) as [->|Hne].
+    + replace ((i + 1 <=? i) && (i <? i + 1 + Z.of_nat (length l))) with false by lia.
+      replace ((i <=? i) && (i <? i + Z.of_nat (Datatypes.S (length l)))) with true by lia.
+      rewrite Z.sub_diag. cbn [Z.to_nat nth]. apply cell_put_same.
+    + destruct ((i + 1 <=? j) && (j <? i + 1 + Z.of_nat (length l))) eqn:E1.
+      * replace ((i <=? j) && (j <? i + Z.of_nat (Datatypes.S (length l)))) with true by lia.
+        replace (Z.to_nat (j - i)) with (Datatypes.S (Z.to_nat (j - (i + 1)))) by lia. reflexivity.
+      * replace ((i <=? j) && (j <? i + Z.of_nat (Datatypes.S (length l)))) with false by lia.
+        apply cell_put_other; lia.
+Qed.
+
+Lemma map_nth_range {A} (l : list A) (d : A) :
+  map (fun i => nth (Z.to_nat i) l d) (range 0 (Z.of_nat (length l))) = l.
+Proof.
+  unfold range. rewrite Z.sub_0_r, Nat2Z.id.
+  assert (forall (l : list A) a, 0 <= a -> map (fun i => nth (Z.to_nat (i - a)) l d) (range_from a (length l)) = l) as H.
+  { clear l. induction l as [|x l IH]; intros a Ha; cbn [length range_from map]; [reflexivity|].
+    rewrite Z.sub_diag. cbn [Z.to_nat nth]. f_equal. rewrite <- (IH (a + 1)) at 2 by lia.
+    apply map_ext_in. intros i Hi. apply In_range_from in Hi.
+    replace (Z.to_nat (i - a)) with (Datatypes.S (Z.to_nat (i - (a + 1)))) by lia. reflexivity. }
+  rewrite <- (H l 0) at 2 by lia. apply map_ext. intros i. rewrite Z.sub_0_r. reflexivity.
+Qed.
+
+(* storing a full array: the cells are the list *)
+Lemma store_from_cells_list colors c :
+  length colors = (NS * NS)%nat ->
+  exists c', store_from c 0 colors = Ok c' /\ forall ao ab, cells_list (D c' ao ab) = colors.
+Proof.
+  intros Hl. assert (Z.of_nat (length colors) = NCELLS) as HZ by (rewrite Hl; vm_compute; reflexivity).
+  destruct (store_from_ok colors c 0) as [c' [E Hc]]; [lia|lia|].
+  exists c'. split; [assumption|]. intros ao ab. unfold cells_list; cbn [cells].
+  rewrite <- (map_nth_range colors None) at 1. rewrite HZ. apply map_ext_in. intros i Hi. apply In_range in Hi.
+  rewrite (Hc i) by lia. replace ((0 <=? i) && (i <? 0 + Z.of_nat (length colors))) with true by lia.
+  rewrite Z.sub_0_r. reflexivity.
+Qed.
